@@ -47,6 +47,46 @@ def parse_spice(text):
     return {"subs": subs, "top": top}
 
 
+def parse_spectre(text):
+    """A Spectre-format netlist as written by the vlsirtools netlister -> the same structure as parse_spice.  Instance = name line (no type prefix),
+    a '+ ( nets )' line, a '+ name-of-what-is-instantiated' line; comment lines start with '//' (also after a '+')."""
+    subs, cur, top = {}, None, ""
+    lines = [ln.strip() for ln in text.splitlines()]
+    i = 0
+
+    def plus_tokens(ln):
+        body = ln[1:].strip()
+        return None if body.startswith("//") or not body else body.split()
+    while i < len(lines):
+        ln = lines[i]
+        if ln.startswith("subckt "):
+            name = ln.split()[1]
+            cur = {"ports": [], "insts": []}
+            subs[name] = cur
+            top = name
+            if i + 1 < len(lines) and lines[i + 1].startswith("+"):
+                cur["ports"] = plus_tokens(lines[i + 1]) or []
+                i += 1
+        elif ln.startswith("ends"):
+            cur = None
+        elif cur is not None and ln and not ln.startswith(("+", "//")):
+            plus = []
+            j = i + 1
+            while j < len(lines) and (lines[j].startswith("+") or lines[j].startswith("//")):
+                if lines[j].startswith("+"):
+                    t = plus_tokens(lines[j])
+                    if t is not None:
+                        plus.append(t)
+                j += 1
+            nets = [x for x in plus[0] if x not in ("(", ")")] if plus and plus[0][0] == "(" else []
+            rest = plus[1:] if nets or (plus and plus[0][0] == "(") else plus
+            of = rest[0][0] if rest else ""
+            cur["insts"].append({"n": ln.split()[0], "nets": nets, "of": of})
+            i = j - 1
+        i += 1
+    return {"subs": subs, "top": top}
+
+
 def run_design(args):
     tid, fam, D, style, entries = args
     from ..hd import h
@@ -63,6 +103,9 @@ def run_design(args):
                 buf = io.StringIO()
                 vlsirtools.netlist(pkg=pkg, dest=buf, fmt="spice")
                 ev["N"] = parse_spice(buf.getvalue())
+                buf = io.StringIO()
+                vlsirtools.netlist(pkg=pkg, dest=buf, fmt="spectre")
+                ev["N2"] = parse_spectre(buf.getvalue())
             except Exception as ex:
                 ev["netlist_exc"] = f"{type(ex).__name__}: {str(ex)[:120]}"
     except Exception as ex:
